@@ -232,6 +232,9 @@ func (ec ElemCase) Build() *secp256k1.Element {
 		if err := e.Decode(oracle.EncC(p)); err != nil {
 			panic("harness: cannot build a decoded element: " + err.Error())
 		}
+	case "nat-mulk":
+		// the library's own [k]src: like the constructors, not second-guessed here (the property's observations judge it)
+		return src.Multiply(Scal(BigH(ec.R.L)))
 	case "nat-new":
 		return secp256k1.NewElement()
 	case "nat-identity":
@@ -276,6 +279,13 @@ func MkNatElemCase(src gen.PV, i int) ElemCase {
 	sc := PtToCase(q, src.Tag)
 
 	return ElemCase{P: PtToCase(p, kind+"("+src.Tag+")"), R: ReprCase{Kind: kind, L: "1", Src: &sc}}
+}
+
+// MkMulKElemCase is the element [k]src as the library's own Multiply leaves it.
+func MkMulKElemCase(src gen.PV, k *big.Int) ElemCase {
+	sc := PtToCase(src.P, src.Tag)
+
+	return ElemCase{P: PtToCase(oracle.Mul(k, src.P), "["+fmt.Sprintf("%x", k)+"]"+src.Tag), R: ReprCase{Kind: "nat-mulk", L: fmt.Sprintf("%x", k), Src: &sc}}
 }
 
 // NaturalKinds lists the representation kinds produced through implementation operations.
